@@ -299,6 +299,30 @@ def run_shard(desc):
         if len(body) > int(neg.msg_size) - 19:
             continue
         run_one(res, sensor, 2, body, nb, neg, 'structured', sk, must_decode=False, K=K)
+    # ---- (4c) consistent truncation: one attribute of a decodable UPDATE cut at each offset of its value, the attribute
+    # and block lengths rewritten to match, so the cut reaches the value decoder instead of the outer length checks
+    upd_seeds = [b for t, b in seeds if t == 2] + [m['body'] for m in qa if m['type'] == 2]
+    ncut = 0
+    for i in range(desc['inputs'] // 30):
+        if not upd_seeds:
+            break
+        body = r.choice(upd_seeds)
+        try:
+            wd, ab, nl = rw.split_update(body)
+            tlvs = rw.dec_attr_tlvs(ab)
+        except rw.RefError:
+            continue
+        if not tlvs:
+            continue
+        ai = r.randrange(len(tlvs))
+        flags, code, value = tlvs[ai]
+        cuts = range(len(value)) if len(value) <= 48 else sorted(r.sample(range(len(value)), 48))
+        sk, (nb, neg) = sess(r.randrange(64))
+        for c in cuts:
+            block = b''.join(rw.enc_attr(f, cd, (v[:c] if j == ai else v), force_ext=bool(f & 0x10)) for j, (f, cd, v) in enumerate(tlvs))
+            run_one(res, sensor, 2, rw.enc_update_body(wd, block, nl), nb, neg, 'cut-attribute', sk, must_decode=False, K=K, wit_extra={'attribute': code, 'cut': c})
+            ncut += 1
+    res.extra['attribute_cuts'] = ncut
     # ---- (5) RFC-valid but unusual: must decode; scaling law and stack depth
     for ui, kind in enumerate(UNUSUAL):
         if (ui + desc['shard']) % 2 and desc['tier'] == 'quick':
@@ -338,7 +362,7 @@ def run_shard(desc):
 
 
 def finish(merged, tier, seed):
-    need = ['update:valid', 'open:valid', 'notification:valid', 'refresh:valid', 'update:mutated', 'update:random', 'update:structured', 'update:qa-seed'] + [f'update:unusual:{k}' for k in UNUSUAL]
+    need = ['update:valid', 'open:valid', 'notification:valid', 'refresh:valid', 'update:mutated', 'update:random', 'update:structured', 'update:cut-attribute', 'update:qa-seed'] + [f'update:unusual:{k}' for k in UNUSUAL]
     missing = [c for c in need if not merged['classes'].get(c)]
     if missing:
         merged['inconclusive'].append('classes never judged: ' + ','.join(missing))
